@@ -180,6 +180,7 @@ def oblige_named(path, base, spec, where, kind):
         path.obligations.append(grp)
         for _, f in named:
             path.pc.append(f)
+            path.pc_tags[f.get_id()] = "oblige"
             path.sadd(f)
         return grp
     return path.oblige(base, _zb(spec), where, kind)
@@ -251,6 +252,7 @@ def verify_function(model: Model, contract: Contract, timeout_ms=None, max_paths
             lv = list(path.ghost.get("__loopvars__", []))
             yl.append(YieldEvent(list(path.pc), z, lv, pid, len(yl), it.where(node)))
             yl[-1].args_end = path.ghost.get("__args_end__", 0)
+            yl[-1].tags = dict(path.pc_tags)
             events.append(yl[-1])
             if interference is not None:
                 interference.after_yield(it, cc, node)
@@ -543,6 +545,7 @@ def gen_obligations(model, contract, events, results, fs):
             shapes.setdefault(key, (conds, []))[1].append(ev)
         for si, (key, (conds, evs)) in enumerate(sorted(shapes.items(), key=lambda kv: str(kv[0]))):
             disj = []
+            extra_hyps = []
             cond_ids = set(key)
             for ev in evs:
                 pc = strip_nd(ev.pc[nbase:])
@@ -560,20 +563,62 @@ def gen_obligations(model, contract, events, results, fs):
                 conj = eliminate_defined(conj, {str(t)})
                 base_ids = {f.get_id() for f in base_pc} | cond_ids
                 conj = [f for f in conj if f.get_id() not in base_ids]
-                body = z3.And(*conj) if len(conj) > 1 else (conj[0] if conj else z3.BoolVal(True))
-                loc = locals_of([body], {str(t)})
-                if loc:
-                    body = z3.Exists(loc, body)
+                # facts assumed along the path (callee postconditions, axioms) that mention no
+                # event-local constant are hypotheses of the VC, not conditions of the event
+                # Semantics (DESIGN 2.5): loop elements are chosen angelically (every element is visited),
+                # results of callees are whatever the callee returned: only their assumed postconditions
+                # (facts) are known.  Event happens for t  iff  exists x. forall r. facts(x, r) -> conds(x, r).
+                tagged = []
+                for f0 in pc:
+                    for cj in conjuncts(f0):
+                        tagged.append((cj, ev.tags.get(cj.get_id()) or ev.tags.get(f0.get_id())))
+                tagmap = {}
+                for cj, tg in tagged:
+                    g2 = z3.substitute(cj, *subs) if subs else cj
+                    tagmap[g2.get_id()] = tg
+                facts, conds = [], []
+                for f in conj:
+                    tag = ev.tags.get(f.get_id()) or tagmap.get(f.get_id())
+                    (facts if tag in ("assume", "oblige") else conds).append(f)
+                sub_names = {str(x) for x, _ in subs}
+                xs = [x for (x, itd) in ev.loopvars if str(x) not in sub_names]
+                xnames = {str(x) for x in xs}
+                rs = [v for v in locals_of(facts + conds, {str(t)}) if str(v) not in xnames]
+                cbody = z3.And(*conds) if len(conds) > 1 else (conds[0] if conds else z3.BoolVal(True))
+                if not xs:
+                    # hoist the universally quantified callee results: fresh names per event
+                    # a callee result created on a common execution prefix is the same value in every event
+                    # that shares that prefix: events may share a local iff they assume exactly the same facts
+                    # about it; otherwise it is renamed apart
+                    def sig(v):
+                        ids = sorted(f.get_id() for f in facts if _occurs(v, f))
+                        return abs(hash(tuple(ids))) % (10 ** 10)
+                    ren = [(v, z3.Const(f"{v}@{sig(v)}", v.sort())) for v in rs]
+                    if ren:
+                        facts = [z3.substitute(f, *ren) for f in facts]
+                        cbody = z3.substitute(cbody, *ren)
+                    seen_h = {h.get_id() for h in extra_hyps}
+                    extra_hyps.extend(f for f in facts if f.get_id() not in seen_h)
+                    body = cbody
+                else:
+                    inner = z3.Implies(z3.And(*facts), cbody) if facts else cbody
+                    if rs:
+                        inner = z3.ForAll(rs, inner)
+                    body = z3.Exists(xs, inner)
                 disj.append(body)
             goal = z3.Implies(_zb(g.member(cc, t)), z3.Or(*disj) if disj else z3.BoolVal(False))
-            obs.append(Obligation(f"generator.complete[shape{si}]", base_pc + list(conds), goal, fs.where(),
-                                  "gen-complete"))
+            obs.append(Obligation(f"generator.complete[shape{si}]", base_pc + list(conds) + extra_hyps, goal,
+                                  fs.where(), "gen-complete"))
     if g.distinct:
         # pairwise: two yield events with equal values must be the same event & same loop elements
+        def shape_key(ev):
+            return tuple(sorted(f.get_id() for f in ev.pc[nbase:ev.args_end]))
         for i, a in enumerate(events):
             for j, b in enumerate(events):
                 if j < i:
                     continue
+                if shape_key(a) != shape_key(b):
+                    continue  # different argument shapes never occur in the same call
                 pa = strip_nd(a.pc[nbase:])
                 pb = strip_nd(b.pc[nbase:])
                 # rename b's locals apart
@@ -624,9 +669,15 @@ def find_component(value_z, x, t):
     if d.kind() != z3.Z3_OP_DT_CONSTRUCTOR:
         return None
     sort = value_z.sort()
+    ci = None
+    for k in range(sort.num_constructors()):
+        if sort.constructor(k).eq(d):
+            ci = k
+    if ci is None:
+        return None
     for i in range(value_z.num_args()):
         a = value_z.arg(i)
-        acc = sort.accessor(0, i)
+        acc = sort.accessor(ci, i)
         if z3.is_const(a) and a.eq(x):
             return acc(t)
         sub = find_component(a, x, acc(t))
